@@ -10,7 +10,10 @@
 //     target PID and message of every send, the callbacks passed in record their
 //     invocations into the same ordered event log.  Sends whose PID address is the local
 //     one ("h:0") are really delivered to recording actors spawned under the service names,
-//     and the harness checks that the actor that received the message is the recorded target.
+//     and the harness checks that the actor that received the message is the recorded target;
+//   - calls in flight together (OCalls, calls.go): one call per worker NodeService, each made
+//     inside that service's own goroutine, run by a token-passing scheduler so that two or
+//     more calls are inside the route layer at the same time at exactly reproducible points.
 package c07
 
 import (
@@ -42,6 +45,7 @@ import (
 const (
 	localAddr  = "h:0"
 	driverName = "c07-driver"
+	nWorkers   = 4
 )
 
 // ---- tokens <-> strings (injective) ----
@@ -112,7 +116,9 @@ type driver struct {
 	sys        *actor.ActorSystem
 	ns         *service.NodeService
 	appDefault route.RouteFunc
-	cur        *[]any // event log of the op being executed (service goroutine only)
+	workers    []*service.NodeService
+	mainT      *tctx
+	curT       *tctx // context of the goroutine that holds the token (see calls.go)
 	mu         sync.Mutex
 	spawned    map[string]bool
 	recv       chan recvRec
@@ -143,7 +149,7 @@ func pidTerm(p *actor.PID) any {
 
 func (d *driver) middleware(next actor.SenderFunc) actor.SenderFunc {
 	return func(c actor.SenderContext, target *actor.PID, env *actor.MessageEnvelope) {
-		if d.cur != nil {
+		if t := d.curT; t != nil && t.evs != nil {
 			g, m, req := int64(-98), int64(-98), false
 			if sr, ok := env.Message.(*servicemsgs.ServiceRequest); ok {
 				segs := strings.Split(sr.Route, ".")
@@ -154,7 +160,7 @@ func (d *driver) middleware(next actor.SenderFunc) actor.SenderFunc {
 				}
 				req = sr.ReqId != as.NotifyReqID
 			}
-			*d.cur = append(*d.cur, hx.C("ESend", pidTerm(target), req, g, m))
+			*t.evs = append(*t.evs, hx.C("ESend", pidTerm(target), req, g, m))
 		}
 		next(c, target, env)
 		if target.Address == localAddr {
@@ -208,35 +214,58 @@ func setup() *driver {
 		if _, err := d.sys.Root.SpawnNamed(props, driverName); err != nil {
 			panic(err)
 		}
-		// wait until the service actor is started (Context set)
-		deadline := time.Now().Add(5 * time.Second)
-		for {
-			ok := make(chan bool, 1)
-			if d.ns != nil && d.ns.GetRunService() != nil {
-				d.ns.Post(func() { ok <- d.ns.Context != nil })
-				select {
-				case v := <-ok:
-					if v {
-						drv = d
-						return
-					}
-				case <-time.After(time.Second):
-				}
+		d.workers = make([]*service.NodeService, nWorkers)
+		for i := range d.workers {
+			i := i
+			name := fmt.Sprintf("%s-w%d", driverName, i)
+			wp, _ := as.NewServicePropsWithNewScheDisp(func() actor.Actor {
+				d.workers[i] = service.NewService()
+				return d.workers[i]
+			}, name)
+			wp.Configure(actor.WithSenderMiddleware(d.middleware))
+			if _, err := d.sys.Root.SpawnNamed(wp, name); err != nil {
+				panic(err)
 			}
-			if time.Now().After(deadline) {
-				panic("c07: driver service did not start")
-			}
-			time.Sleep(5 * time.Millisecond)
 		}
+		d.mainT = &tctx{}
+		d.curT = d.mainT
+		waitStarted(func() *service.NodeService { return d.ns })
+		for i := range d.workers {
+			i := i
+			waitStarted(func() *service.NodeService { return d.workers[i] })
+		}
+		drv = d
 	})
 	return drv
+}
+
+// waitStarted waits until the service actor is started (Context set)
+func waitStarted(get func() *service.NodeService) {
+	deadline := time.Now().Add(5 * time.Second)
+	for {
+		ok := make(chan bool, 1)
+		if ns := get(); ns != nil && ns.GetRunService() != nil {
+			ns.Post(func() { ok <- ns.Context != nil })
+			select {
+			case v := <-ok:
+				if v {
+					return
+				}
+			case <-time.After(time.Second):
+			}
+		}
+		if time.Now().After(deadline) {
+			panic("c07: driver service did not start")
+		}
+		time.Sleep(5 * time.Millisecond)
+	}
 }
 
 func (d *driver) ensureTargets(members []*cluster.Member) {
 	for _, m := range members {
 		for _, full := range m.Services {
 			_, name := app.SplitServiceName(full)
-			if name == "" || name == driverName {
+			if name == "" || strings.HasPrefix(name, driverName) {
 				continue
 			}
 			d.mu.Lock()
@@ -257,13 +286,13 @@ func (d *driver) ensureTargets(members []*cluster.Member) {
 // stub client connection for session.NewFrontSession
 type stubConn struct{}
 
-func (stubConn) Reserve()                                           {}
-func (stubConn) GetId() uint32                                      { return 7 }
-func (stubConn) SetId(uint32)                                       {}
-func (stubConn) Close()                                             {}
-func (stubConn) IsClosed() bool                                     { return false }
-func (stubConn) Push(string, interface{}) error                     { return nil }
-func (stubConn) ResponseMID(uint, interface{}, error) error         { return nil }
+func (stubConn) Reserve()                                   {}
+func (stubConn) GetId() uint32                              { return 7 }
+func (stubConn) SetId(uint32)                               {}
+func (stubConn) Close()                                     {}
+func (stubConn) IsClosed() bool                             { return false }
+func (stubConn) Push(string, interface{}) error             { return nil }
+func (stubConn) ResponseMID(uint, interface{}, error) error { return nil }
 
 type plainStruct struct{ A int }
 
@@ -337,41 +366,6 @@ func lookupRes(tbl []any, key int64) (hx.T, bool) {
 	return hx.T{}, false
 }
 
-// mkFn builds a real route.RouteFunc from a script term (Model.interp_script is its model).
-func mkFn(s hx.T) route.RouteFunc {
-	return func(ty string, p route.IRouteParam) string {
-		switch s.Name {
-		case "SConst":
-			return doRes(s.Term(0))
-		case "SKey":
-			v := p.Get(keyStr(s.Int(0)), nil) // p == nil: a genuine nil-interface panic
-			if v == nil {
-				return doRes(s.Term(3))
-			}
-			if r, ok := lookupRes(s.List(1), v.(int64)); ok {
-				return doRes(r)
-			}
-			return doRes(s.Term(2))
-		case "SKind":
-			switch p.(type) {
-			case nil:
-				return doRes(s.Term(0))
-			case *session.FrontSession:
-				return doRes(s.Term(1))
-			case *route.MapParam:
-				return doRes(s.Term(2))
-			}
-			panic("c07: SKind: unexpected parameter type")
-		case "STy":
-			if r, ok := lookupRes(s.List(0), strTok(ty)); ok {
-				return doRes(r)
-			}
-			return doRes(s.Term(1))
-		}
-		panic("c07: unknown script " + s.Name)
-	}
-}
-
 func mkMembers(v []any) []*cluster.Member {
 	ms := make([]*cluster.Member, 0, len(v))
 	for _, e := range v {
@@ -429,7 +423,8 @@ func Exec(ops []hx.T) (obs []any, st stats) {
 	d.ns.Post(func() {
 		var out []any
 		defer func() {
-			d.cur = nil
+			d.curT = d.mainT
+			d.mainT.evs = nil
 			if e := recover(); e != nil {
 				done <- result{nil, e}
 				return
@@ -480,11 +475,11 @@ func (c *cx) decision() {
 }
 
 // events runs one app-level call and returns the ordered list of sends and callbacks
-func (c *cx) events(f func(cb func(error, any))) any {
+func (c *cx) events(t *tctx, f func(cb func(error, any))) any {
 	evs := []any{}
-	c.d.cur = &evs
+	t.evs = &evs
 	f(func(err error, _ any) { evs = append(evs, hx.C("ECb", classify(err))) })
-	c.d.cur = nil
+	t.evs = nil
 	c.decision()
 	sent, cbs := 0, 0
 	for _, e := range evs {
@@ -509,14 +504,23 @@ func (c *cx) events(f func(cb func(error, any))) any {
 
 // execOne runs one op.  A panic that escapes the code under test is an observation (BPanic),
 // not a harness failure: the property says route-function panics are contained.
-func (c *cx) execOne(o hx.T) (res any) {
+func (c *cx) execOne(o hx.T) any {
+	if o.Name == "OCalls" {
+		return c.calls(o)
+	}
+	return c.execOn(c.d.ns, c.d.mainT, o)
+}
+
+// execOn runs one single-call op on service ns, whose goroutine is the caller and whose
+// context is t.
+func (c *cx) execOn(ns *service.NodeService, t *tctx, o hx.T) (res any) {
 	d, st := c.d, c.st
 	defer func() {
 		if e := recover(); e != nil {
 			if s, ok := e.(string); ok && strings.HasPrefix(s, "c07:") {
 				panic(e) // harness-internal inconsistency
 			}
-			d.cur = nil
+			t.evs = nil
 			st.tags["out-panic"] = true
 			res = "BPanic"
 		}
@@ -576,18 +580,18 @@ func (c *cx) execOne(o hx.T) (res any) {
 		r, p := segStr(o.Ints(0)), o.Term(1)
 		st.tags["param-"+p.Name] = true
 		st.tags[fmt.Sprintf("route-segments-%d", len(o.Ints(0)))] = true
-		return c.events(func(cb func(error, any)) { app.Request(d.ns, r, mkParam(p), msg, cb) })
+		return c.events(t, func(cb func(error, any)) { app.Request(ns, r, mkParam(p), msg, cb) })
 	case "ONotify":
 		r, p := segStr(o.Ints(0)), o.Term(1)
 		st.tags["param-"+p.Name] = true
 		st.tags[fmt.Sprintf("route-segments-%d", len(o.Ints(0)))] = true
-		return c.events(func(func(error, any)) { app.Notify(d.ns, r, mkParam(p), msg) })
+		return c.events(t, func(func(error, any)) { app.Notify(ns, r, mkParam(p), msg) })
 	case "OQuery":
 		f := tokStr(o.Int(0))
-		return c.events(func(cb func(error, any)) { app.QuerySession(d.ns, f, 9, cb) })
+		return c.events(t, func(cb func(error, any)) { app.QuerySession(ns, f, 9, cb) })
 	case "OKick":
 		f := tokStr(o.Int(0))
-		return c.events(func(cb func(error, any)) { app.Kick(d.ns, f, 9, cb) })
+		return c.events(t, func(cb func(error, any)) { app.Kick(ns, f, 9, cb) })
 	case "OWork":
 		return hx.C("BNames", names(app.GetWorkServices(tokStr(o.Int(0)))))
 	case "OList":
